@@ -69,6 +69,12 @@ class SetModel(Model):
                 return i
         return None
 
+    def eq_model(self, it, other):
+        if not isinstance(other, SetModel) or len(other.fields) != len(self.fields):
+            return False
+        # elements of a set are pairwise distinct, so equal sizes + inclusion = equality
+        return b_and(*[b_or(*[it.veq(x, y) for y in other.fields]) for x in self.fields])
+
     def __repr__(self):
         return 'set%s' % (list(self.fields),)
 
@@ -313,6 +319,16 @@ def m_checked_sub(it, a, ty, callee):
     if it.branch(lt):
         return opt_none()
     return opt_some(it.binop('Sub', x, y))
+
+
+def m_ref_int_cmp(it, a, ty, callee):
+    x, y = a
+    while isinstance(x, Ptr):
+        x = it.load(x)
+    while isinstance(y, Ptr):
+        y = it.load(y)
+    op = {'lt': 'Lt', 'le': 'Le', 'gt': 'Gt', 'ge': 'Ge'}[callee.rsplit('::', 1)[1]]
+    return it.binop(op, x, y)
 
 
 def m_min_max(which):
@@ -694,8 +710,8 @@ def install(it):
     # Clone / PartialEq of library types: values are immutable, so clone is the identity
     A(r'<(?!.*(?:litep2p::|^<(?:transport|protocol|crypto|types|peer_id|codec|error|substream|multistream_select|addresses|config|yamux|bandwidth|executor|utils)::)).* as std::clone::Clone>::clone', m_clone)
     A(r'<std::(?:option::Option|result::Result|vec::Vec|collections::\w+|sync::Arc|boxed::Box)<.*> as std::clone::Clone>::clone', m_clone)
-    A(r'<(?:multiaddr::Multiaddr|multihash::Multihash<64>|bytes::Bytes|std::time::Instant|std::time::Duration|multiaddr::PeerId) as std::cmp::PartialEq>::(eq)', m_eq)
-    A(r'<(?:multiaddr::Multiaddr|multihash::Multihash<64>|bytes::Bytes|std::time::Instant|std::time::Duration|multiaddr::PeerId) as std::cmp::PartialEq>::(ne)', m_ne)
+    A(r'<(?:multiaddr::Multiaddr|multihash::Multihash<64>|bytes::Bytes|std::time::Instant|std::time::Duration|multiaddr::PeerId|std::net::\w+) as std::cmp::PartialEq>::(eq)', m_eq)
+    A(r'<(?:multiaddr::Multiaddr|multihash::Multihash<64>|bytes::Bytes|std::time::Instant|std::time::Duration|multiaddr::PeerId|std::net::\w+) as std::cmp::PartialEq>::(ne)', m_ne)
     A(r'<(?:std::option::Option|std::result::Result|std::vec::Vec|std::collections::VecDeque|\[|\(|&).* as std::cmp::PartialEq(<.*>)?>::(eq|ne)', m_generic_eq)
     # Option / Result
     A(r'std::option::Option::<.*>::is_some', m_is_variant(1))
@@ -733,6 +749,10 @@ def install(it):
     A(r'core::num::<impl u\w+>::checked_sub', m_checked_sub)
     A(r'core::num::<impl [ui]\w+>::wrapping_add', lambda it, a, ty, c: it.binop('Add', a[0], a[1]))
     A(r'core::num::<impl [ui]\w+>::wrapping_sub', lambda it, a, ty, c: it.binop('Sub', a[0], a[1]))
+    A(r'<&*(?:u|i)(?:8|16|32|64|128|size) as std::cmp::PartialOrd(<.*>)?>::(lt|le|gt|ge)', m_ref_int_cmp)
+    A(r'<(?:u|i)(?:8|16|32|64|128|size) as std::cmp::Ord>::cmp', lambda it, a, ty, c: it.binop('Cmp', deref(it, a[0]), deref(it, a[1])))
+    A(r'<(?:u|i)(?:8|16|32|64|128|size) as std::cmp::Ord>::min', m_min_max('min'))
+    A(r'<(?:u|i)(?:8|16|32|64|128|size) as std::cmp::Ord>::max', m_min_max('max'))
     A(r'std::cmp::min::<.*>', m_min_max('min'))
     A(r'std::cmp::max::<.*>', m_min_max('max'))
     # smart pointers and locks (single-threaded execution)
@@ -758,6 +778,8 @@ def install(it):
     A(r'std::collections::(HashSet|BTreeSet)::<.*>::remove::<.*>', m_set_remove)
     A(r'std::collections::(HashSet|BTreeSet)::<.*>::contains::<.*>', m_set_contains)
     A(r'std::collections::(HashSet|BTreeSet)::<.*>::iter', m_set_iter)
+    A(r'<&?std::collections::(HashSet|BTreeSet)<.*> as std::cmp::PartialEq>::eq', m_eq)
+    A(r'<&?std::collections::(HashSet|BTreeSet)<.*> as std::cmp::PartialEq>::ne', m_ne)
     A(r'<std::collections::(HashSet|BTreeSet)<.*> as std::iter::Extend<.*>>::extend::<.*>', m_set_extend)
     A(r'(?:std::collections::HashMap|indexmap::IndexMap)::<.*>::insert', m_map_insert)
     A(r'std::collections::HashMap::<.*>::remove::<.*>', m_map_remove)
